@@ -472,7 +472,7 @@ def unit_box1(ctx):
     if kind == "aligned":
         i = ctx.choose("i", list(range(n)))
         j = ctx.choose("j", list(range(i + 1, n + 1)))
-        variants = _tier(ctx, ["near", "mul"], ["near", "mul", "lin", "dn", "up"])
+        variants = _tier(ctx, ["near", "mul"], ["near", "mul", "dn", "up"])
         var = ctx.choose("face", variants)
         lo, hi = geo.face(0, i, var), geo.face(0, j, var)
         for v in variants[:variants.index(var)]:
@@ -639,7 +639,7 @@ def _probe_list(geo, ax, quarters=True, variants=("near",)):
 
 
 def unit_range1(ctx):
-    axes = _axis1(ctx, _tier(ctx, CNT_Q[:4], CNT_T), _tier(ctx, SCL_Q[:2], SCL_Q))
+    axes = _axis1(ctx, _tier(ctx, CNT_Q[:4], CNT_T), SCL_Q[:2])
     mesh = _mesh(axes)
     geo = Geo(mesh)
     n = geo.n[0]
